@@ -33,6 +33,11 @@ theorem rsBody_lk (v : Variant) (src : Graph) (ex : List RevId) (op : SOp) (o : 
   | lockW => rfl
   | lockR => rfl
   | unlock => rfl
+  | lockTok good => rfl
+  | leave => rfl
+  | dontLeave => rfl
+  | ownerLock => rfl
+  | ownerUnlock => rfl
   | tip =>
     simp only [rsBody]
     split
@@ -69,8 +74,9 @@ theorem rsBody_lk (v : Variant) (src : Graph) (ex : List RevId) (op : SOp) (o : 
   | pull ow n r stags => rfl
 
 
-theorem acquire_locked (plock : St → Option Nat → Except Err (Nat × St)) (wr : Bool) (k : LockSt) (st : St)
-    (k1 : LockSt) (s1 : St) (h : acquire plock wr k st = .ok (k1, s1)) : k1.mode ≠ .unlocked := by
+theorem acquire_locked (plock : St → Option Nat → Except Err (Nat × St)) (reset wr : Bool) (tok : Option Nat)
+    (k : LockSt) (st : St) (k1 : LockSt) (s1 : St) (h : acquire plock reset wr tok k st = .ok (k1, s1)) :
+    k1.mode ≠ .unlocked := by
   unfold acquire at h
   cases hm : k.mode with
   | unlocked =>
@@ -90,10 +96,20 @@ theorem acquire_locked (plock : St → Option Nat → Except Err (Nat × St)) (w
     | true => simp at h
     | false =>
       simp only [Bool.false_eq_true, if_false] at h
-      injection h with h; injection h with ha _; subst ha; simp
+      injection h with h; injection h with ha _; subst ha; simp [hm]
   | w =>
     simp only [hm] at h
-    injection h with h; injection h with ha _; subst ha; simp
+    cases wr with
+    | true =>
+      simp only [if_true] at h
+      split at h
+      · split at h
+        · injection h with h; injection h with ha _; subst ha; simp [hm]
+        · cases h
+      · injection h with h; injection h with ha _; subst ha; simp [hm]
+    | false =>
+      simp only [Bool.false_eq_true, if_false] at h
+      injection h with h; injection h with ha _; subst ha; simp [hm]
 
 theorem clear_scoped (o : Obj) : Scoped o.clear := fun _ => ⟨rfl, rfl, rfl, rfl⟩
 
@@ -120,17 +136,21 @@ theorem release_scoped (prel : St → Nat → Except Err St) (o : Obj) (st : St)
       | none => exact clear_scoped _
       | some t =>
         simp only []
-        cases prel st t <;> exact clear_scoped _
+        cases o.lk.leave with
+        | true => exact clear_scoped _
+        | false =>
+          simp only [Bool.false_eq_true, if_false]
+          cases prel st t <;> exact clear_scoped _
 
 /-- caches live only inside a lock scope: one step of any object whose bodies leave the lock state alone -/
 theorem sessStep_scoped (plock : St → Option Nat → Except Err (Nat × St)) (prel : St → Nat → Except Err St)
-    (body : SOp → Obj → St → Res × Obj × St) (hb : ∀ op o st, (body op o st).2.1.lk = o.lk)
-    (o : Obj) (st : St) (op : SOp) (hs : Scoped o) : Scoped (sessStep plock prel body o st op).2.1 := by
+    (reset : Bool) (body : SOp → Obj → St → Res × Obj × St) (hb : ∀ op o st, (body op o st).2.1.lk = o.lk)
+    (o : Obj) (st : St) (op : SOp) (hs : Scoped o) : Scoped (sessStep plock prel reset body o st op).2.1 := by
   have hw : ∀ wr (b : Obj → St → Res × Obj × St), (∀ o st, (b o st).2.1.lk = o.lk) →
-      Scoped (withLk plock prel wr o st b).2.1 := by
+      Scoped (withLk plock prel reset wr o st b).2.1 := by
     intro wr b hb'
     unfold withLk
-    cases ha : acquire plock wr o.lk st with
+    cases ha : acquire plock reset wr none o.lk st with
     | error e => exact hs
     | ok p =>
       obtain ⟨k1, s1⟩ := p
@@ -138,25 +158,38 @@ theorem sessStep_scoped (plock : St → Option Nat → Except Err (Nat × St)) (
       apply release_scoped
       intro hx
       rw [hb'] at hx
-      exact absurd hx (acquire_locked plock wr o.lk st k1 s1 ha)
+      exact absurd hx (acquire_locked plock reset wr none o.lk st k1 s1 ha)
+  have hacq : ∀ wr tok (res : Res) (f : St → LockSt → St),
+      Scoped (match acquire plock reset wr tok o.lk st with
+        | .error e => (Res.err e, o, st)
+        | .ok (k1, s1) => (res, { o with lk := k1 }, f s1 k1)).2.1 := by
+    intro wr tok res f
+    cases ha : acquire plock reset wr tok o.lk st with
+    | error e => exact hs
+    | ok p =>
+      obtain ⟨k1, s1⟩ := p
+      intro hx
+      exact absurd hx (acquire_locked plock reset wr tok o.lk st k1 s1 ha)
+  have hset : ∀ b, Scoped (match setLeave b o.lk with
+        | .error e => (Res.err e, o, st)
+        | .ok k1 => (Res.ok, { o with lk := k1 }, st)).2.1 := by
+    intro b
+    unfold setLeave
+    by_cases hm : o.lk.mode = .w
+    · simp only [hm, if_true]
+      intro hx
+      simp at hx
+    · simp only [hm, if_false]
+      exact hs
   cases op with
-  | lockW =>
-    simp only [sessStep]
-    cases ha : acquire plock true o.lk st with
-    | error e => exact hs
-    | ok p =>
-      obtain ⟨k1, s1⟩ := p
-      intro hx
-      exact absurd hx (acquire_locked plock true o.lk st k1 s1 ha)
-  | lockR =>
-    simp only [sessStep]
-    cases ha : acquire plock false o.lk st with
-    | error e => exact hs
-    | ok p =>
-      obtain ⟨k1, s1⟩ := p
-      intro hx
-      exact absurd hx (acquire_locked plock false o.lk st k1 s1 ha)
+  | lockW => exact hacq true none .token (fun s k => { s with known := k.token })
+  | lockTok good => exact hacq true _ .token (fun s _ => s)
+  | lockR => exact hacq false none .ok (fun s _ => s)
   | unlock => exact release_scoped prel o st hs
+  | leave => exact hset true
+  | dontLeave => exact hset false
+  | ownerLock => exact hs
+  | ownerUnlock => exact hs
   | tip => exact hw _ _ (hb _)
   | setTip n r => exact hw _ _ (hb _)
   | pull ow n r stags => exact hw _ _ (hb _)
@@ -201,8 +234,9 @@ theorem rsBody_setTip_mod_caches (v1 v2 : Variant) (src : Graph) (ex : List RevI
         · exact ⟨rfl, rfl, rfl⟩
         · exact ⟨rfl, rfl, afterSetTip_clear v1 v2 _ n r⟩
 
-theorem acquire_unlocked_count (plock : St → Option Nat → Except Err (Nat × St)) (wr : Bool) (k : LockSt) (st : St)
-    (k1 : LockSt) (s1 : St) (hu : k.mode = .unlocked) (h : acquire plock wr k st = .ok (k1, s1)) : k1.count = 1 := by
+theorem acquire_unlocked_count (plock : St → Option Nat → Except Err (Nat × St)) (reset wr : Bool) (tok : Option Nat)
+    (k : LockSt) (st : St) (k1 : LockSt) (s1 : St) (hu : k.mode = .unlocked)
+    (h : acquire plock reset wr tok k st = .ok (k1, s1)) : k1.count = 1 := by
   unfold acquire at h
   simp only [hu] at h
   cases wr with
@@ -225,27 +259,31 @@ theorem release_count_one (prel : St → Nat → Except Err St) (k : LockSt) (st
     simp only [hc]
     cases k.token with
     | none => simp
-    | some t => simp only []; cases prel st t <;> simp
+    | some t =>
+      simp only []
+      cases k.leave with
+      | true => simp
+      | false => simp only [Bool.false_eq_true, if_false]; cases prel st t <;> simp
 
 theorem clear_lk (o : Obj) (k : LockSt) : ({ o with lk := k } : Obj).clear = { o.clear with lk := k } := rfl
 
 /-- two bodies that agree up to the caches are indistinguishable when the operation opens and closes its own lock scope -/
 theorem withLk_unlocked_mod_caches (plock : St → Option Nat → Except Err (Nat × St)) (prel : St → Nat → Except Err St)
-    (wr : Bool) (o : Obj) (st : St) (b1 b2 : Obj → St → Res × Obj × St) (hu : o.lk.mode = .unlocked)
+    (reset wr : Bool) (o : Obj) (st : St) (b1 b2 : Obj → St → Res × Obj × St) (hu : o.lk.mode = .unlocked)
     (hlk : ∀ o' st', (b1 o' st').2.1.lk = o'.lk ∧ (b2 o' st').2.1.lk = o'.lk)
     (hb : ∀ o' st', (b1 o' st').1 = (b2 o' st').1 ∧ (b1 o' st').2.2 = (b2 o' st').2.2
       ∧ (b1 o' st').2.1.clear = (b2 o' st').2.1.clear) :
-    withLk plock prel wr o st b1 = withLk plock prel wr o st b2 := by
+    withLk plock prel reset wr o st b1 = withLk plock prel reset wr o st b2 := by
   unfold withLk
-  cases ha : acquire plock wr o.lk st with
+  cases ha : acquire plock reset wr none o.lk st with
   | error e => rfl
   | ok p =>
     obtain ⟨k1, s1⟩ := p
     simp only []
     obtain ⟨e1, e2, e3⟩ := hb { o with lk := k1 } s1
     obtain ⟨l1, l2⟩ := hlk { o with lk := k1 } s1
-    have hc := acquire_unlocked_count plock wr o.lk st k1 s1 hu ha
-    have hm := acquire_locked plock wr o.lk st k1 s1 ha
+    have hc := acquire_unlocked_count plock reset wr none o.lk st k1 s1 hu ha
+    have hm := acquire_locked plock reset wr none o.lk st k1 s1 ha
     rw [l1, l2, ← e1, ← e2]
     simp only [] at l1 l2
     have hr := release_count_one prel k1 (b1 { o with lk := k1 } s1).2.2 hm hc
